@@ -56,8 +56,19 @@ async function load() {
 
 (async () => {
   let get;
-  try { get = await load(); } catch (e) { process.stderr.write("load failed: " + e + "\n"); process.exit(3); }
   const lines = fs.readFileSync(inFile, "utf8").split("\n").filter(x => x.trim() !== "");
+  try { get = await load(); } catch (e) {
+    // the freshly built module (or the package's entry module) refuses to initialise: every call is unanswered.
+    // (The orchestrator has built otp.wasm and copied the loader files itself, so this is the binding's doing.)
+    process.stderr.write("load failed: " + e + "\n");
+    const out = fs.openSync(outFile, "w");
+    for (const line of lines) {
+      const sc = JSON.parse(line);
+      fs.writeSync(out, JSON.stringify({ id: sc.id, ret: { t: "loadfail", s: Array.from(Buffer.from(String(e), "utf8")).slice(0, 200), b: false }, threw: true }) + "\n");
+    }
+    fs.closeSync(out);
+    process.exit(0);
+  }
   const out = fs.openSync(outFile, start > 0 ? "a" : "w");
   for (let li = start; li < lines.length; li++) {
     const line = lines[li];
